@@ -238,9 +238,14 @@ def run_case(case):
                         expected[(r, port)].append(dict(exp_base))
             elif t in ("gbc", "gac"):
                 for r in range(n):
-                    if r == s or r in eth.muted or not has_handler:
+                    if r == s or not has_handler:
                         continue
                     v = rg.verdict(stp["shape"], stp["a"], stp["b"], stp["angle"], centre[0], centre[1], pos[r][0], pos[r][1])
+                    if r in eth.muted:
+                        # off the air now; a copy still waiting in a neighbour's contention buffer may reach it after it comes back
+                        if v != "outside":
+                            optional.append(dict(exp_base, receiver=r))
+                        continue
                     if v == "inside":
                         expected[(r, port)].append(dict(exp_base))
                     elif v is None:
